@@ -190,6 +190,8 @@ type Place struct {
 	path    []pathStep
 	typ     types.Type // type of the value stored at the place
 	rootSort string
+	slice   string // pElem reached through a slice value: the slice term and the index into it
+	sidx    string
 }
 
 func (x *Exec) applyPath(root string, path []pathStep) string {
@@ -236,6 +238,13 @@ func (x *Exec) loadPlace(n *Node, st *State, p *Place) Term {
 		return Term{S: x.applyPath(root, p.path), Sort: sortT, T: p.typ}
 	case pElem:
 		root := app("select", app("select", x.get(st, p.varName).S, p.ref), p.idx)
+		if p.slice != "" && n != nil {
+			// seed the specification-level access term (an instance of its defining axiom) so that quantified
+			// invariants over s[i] can be instantiated at the indices the code touches
+			es := x.varSort(p.varName)
+			es = es[len("(Array Int (Array Int ") : len(es)-2]
+			n.assume(mkEq(x.elemAt(p.varName, x.get(st, p.varName).S, p.slice, p.sidx, es), root))
+		}
 		return Term{S: x.applyPath(root, p.path), Sort: sortT, T: p.typ}
 	case pObj:
 		si := x.ss.structInfoOf(p.typ)
@@ -591,7 +600,7 @@ func (x *Exec) placeOf(fr *Frame, n *Node, st *State, v ssa.Value) *Place {
 		case *types.Slice:
 			s := x.val(fr, n, st, v.X)
 			x.safety(fr, n, mkAnd(app("<=", "0", idx), app("<", idx, app("s.len", s.S))), "index", v.Pos())
-			p = &Place{kind: pElem, varName: x.heapElem(xt.Elem()), ref: app("s.arr", s.S), idx: plus(app("s.off", s.S), idx), typ: xt.Elem()}
+			p = &Place{kind: pElem, varName: x.heapElem(xt.Elem()), ref: app("s.arr", s.S), idx: plus(app("s.off", s.S), idx), typ: xt.Elem(), slice: s.S, sidx: idx}
 		case *types.Pointer:
 			arr := xt.Elem().Underlying().(*types.Array)
 			x.safety(fr, n, mkAnd(app("<=", "0", idx), app("<", idx, intLit(arr.Len()))), "index", v.Pos())
